@@ -111,7 +111,8 @@ pub fn exact_fields(d: &[u8], m: &Movie, cfg: &Cfg, e: &Expect) -> Issues {
 #[derive(Clone, Debug)]
 enum Case {
     Prog { name: String, cfg: Cfg, ops: Vec<Op> },
-    ParamSets { codec: VCodec, sps: usize, pps: usize, vps: usize },
+    /// `dup`: a second, small parameter set of every type follows the first ones
+    ParamSets { codec: VCodec, sps: usize, pps: usize, vps: usize, dup: bool },
     Frag { name: String, cfg: FCfg, hist: Vec<FOp> },
     Init { cfg: FCfg },
 }
@@ -203,7 +204,8 @@ fn cases() -> Vec<Case> {
                     if codec == VCodec::H264 && vl != 7 {
                         continue;
                     }
-                    v.push(Case::ParamSets { codec, sps: s, pps: p, vps: vl });
+                    v.push(Case::ParamSets { codec, sps: s, pps: p, vps: vl, dup: false });
+                    v.push(Case::ParamSets { codec, sps: s, pps: p, vps: vl, dup: true });
                 }
             }
         }
@@ -306,7 +308,7 @@ fn judge(c: &Case, order: (u64, u64), t: &mut Tally) {
             }
             t.sample(2, || json!({"case": name, "history": brief_ops(ops), "results": ex.results.iter().map(|r| r.brief()).collect::<Vec<_>>()}));
         }
-        Case::ParamSets { codec, sps, pps, vps } => {
+        Case::ParamSets { codec, sps, pps, vps, dup } => {
             let mk = |mut base: Vec<u8>, len: usize| {
                 while base.len() < len {
                     let i = base.len();
@@ -325,12 +327,21 @@ fn judge(c: &Case, order: (u64, u64), t: &mut Tally) {
             }
             units.push(s.clone());
             units.push(p.clone());
+            if *dup {
+                // "the first SPS / PPS / VPS": later sets of the same type must not be taken
+                // instead, in particular not when the first one cannot be represented
+                if *codec == VCodec::H265 {
+                    units.push(frames::h265_vps(1));
+                }
+                units.push(if *codec == VCodec::H264 { frames::h264_sps(1) } else { frames::h265_sps(1) });
+                units.push(if *codec == VCodec::H264 { frames::h264_pps(1) } else { frames::h265_pps(1) });
+            }
             units.push(if *codec == VCodec::H264 { vec![0x65, 0x88, 0x84] } else { vec![0x26, 0x01, 0xaf] });
             let frame = annexb(&units, false);
             let cfg = Cfg::basic(*codec, None, sps % 2 == 0);
             let ops = vec![Op::WV { pts: T(0.0), data: Bytes::new(frame), key: true }, Op::FinishInPlaceStats];
             let ex = run(&cfg, &ops);
-            let case = || json!({"engine": "E2-c16-paramsets", "codec": codec, "sps": sps, "pps": pps, "vps": vps});
+            let case = || json!({"engine": "E2-c16-paramsets", "codec": codec, "sps": sps, "pps": pps, "vps": vps, "dup": dup});
             if let Some((i, m)) = ex.panicked() {
                 t.violation("C16/param-sets/panic", order, || format!("{codec:?} sps {sps} pps {pps} vps {vps}: call {i} panicked: {m}"), case);
                 return;
@@ -347,7 +358,7 @@ fn judge(c: &Case, order: (u64, u64), t: &mut Tally) {
                 _ => false,
             };
             if !ok {
-                t.violation("C16/param-sets/length-field", order, || format!("{codec:?} with SPS {sps} / PPS {pps} / VPS {vps} bytes was accepted but the configuration record does not hold the parameter sets (16-bit length fields)"), case);
+                t.violation("C16/param-sets/length-field", order, || format!("{codec:?} with SPS {sps} / PPS {pps} / VPS {vps} bytes (second small sets following: {dup}) was accepted but the configuration record does not hold the first parameter sets (16-bit length fields)"), case);
             }
         }
         Case::Frag { name, cfg, hist } => {
@@ -439,7 +450,7 @@ pub fn check(ctx: &Ctx) -> i32 {
         &tally,
         Meta {
             level: "exploration",
-            rule: format!("{n} boundary cases: video decode-time gaps g1 (x optional g2) over {{3000, 2^31-1, 2^31, 2^31+1, 2^32-2, 2^32-1, 2^32, 2^32+1}} ticks x composition offset of the second frame (and, separately, of the first / only frame) over {{0, +-(2^31-1), +-2^31, +-(2^31+1)}} from start {{0, 2^33}} (cumulative durations crossing 2^32 included); the same gap product for AAC and Opus audio; parameter sets of 65534..65537 bytes (SPS) x {{4, 65535, 65536}} (PPS) x VPS; dimensions {{65535, 65536, 65537, 131072, u32::MAX}} x {{480, 65535, 65536}} x 4 codecs with and without frames; audio rates {{65535, 65536, 88200, 96000, u32::MAX}} x channels {{1, 6, 255, 256, 65535}}; absolute timestamps near 2^40, 2^52, 2^53 ticks and 1e15/1e300/f64::MAX s; fragmented DTS gaps {{2^32-1, 2^32, 2^33}} x composition offsets around 2^31; init segments with dimensions and parameter sets around 2^16. Oracle: the crossing call returns Err, or every numeric field the reader decodes equals the exact integer recomputed from the submitted history (no 32-bit escape). Thorough tier only: 18 files whose media data reaches 2^32 bytes (mdat box size 2^32 - e for e over {{-64, -1, 0, 1, 16, 64, 600, 1200, 5000}} x both layouts, the last sample 32 bytes so that its chunk offset crosses 2^32 while the box size still fits), each in a child process: refused, or exact under the reader (which understands largesize and co64). Distinct by (results, output bytes)."),
+            rule: format!("{n} boundary cases: video decode-time gaps g1 (x optional g2) over {{3000, 2^31-1, 2^31, 2^31+1, 2^32-2, 2^32-1, 2^32, 2^32+1}} ticks x composition offset of the second frame (and, separately, of the first / only frame) over {{0, +-(2^31-1), +-2^31, +-(2^31+1)}} from start {{0, 2^33}} (cumulative durations crossing 2^32 included); the same gap product for AAC and Opus audio; parameter sets of 65534..65537 bytes (SPS) x {{4, 65535, 65536}} (PPS) x VPS, each alone and followed by a second small set of every type; dimensions {{65535, 65536, 65537, 131072, u32::MAX}} x {{480, 65535, 65536}} x 4 codecs with and without frames; audio rates {{65535, 65536, 88200, 96000, u32::MAX}} x channels {{1, 6, 255, 256, 65535}}; absolute timestamps near 2^40, 2^52, 2^53 ticks and 1e15/1e300/f64::MAX s; fragmented DTS gaps {{2^32-1, 2^32, 2^33}} x composition offsets around 2^31; init segments with dimensions and parameter sets around 2^16. Oracle: the crossing call returns Err, or every numeric field the reader decodes equals the exact integer recomputed from the submitted history (no 32-bit escape). Thorough tier only: 32 files whose media data reaches 2^32 bytes (14 of them with three trailing Opus packets of 100 or 10 bytes, whose chunk offsets are the ones that cross) (mdat box size 2^32 - e for e over {{-64, -1, 0, 1, 16, 64, 600, 1200, 5000}} x both layouts, the last sample 32 bytes so that its chunk offset crosses 2^32 while the box size still fits), each in a child process: refused, or exact under the reader (which understands largesize and co64). Distinct by (results, output bytes)."),
             bound: "three inputs (below / at / above) per narrowing site, pairwise with neighbouring sites".into(),
             exhaustive: true,
             assumptions: vec!["descriptor lengths near 2^8 are unreachable from inputs of feasible size and are not claimed; box sizes and chunk offsets near 2^32 are exercised in the thorough tier only (10 GiB per case)".into(), "mvhd/tkhd durations may match any track and any rounding direction; only wrapped/clipped values are violations".into()],
@@ -468,12 +479,17 @@ impl std::io::Write for BigSink {
 /// is 2^32 - e bytes long), the last one 32 bytes. Prints one line: `ERR <message>` (a write or
 /// finish refused), `OK <bytes>` (file correct under the exact-value oracle), or `BAD <sig>: ...`.
 /// Exit: 0 = ERR or OK, 1 = BAD, 3 = panic.
-pub fn child_huge(e: i64, fast: bool) -> i32 {
-    use muxide::api::{MuxerBuilder, VideoCodec};
+pub fn child_huge(e: i64, fast: bool, audio_mode: u8) -> i32 {
+    // 0 = video only, 1 = three trailing 100-byte Opus packets, 2 = three trailing 10-byte packets
+    let trailing_audio = audio_mode > 0;
+    use muxide::api::{AudioCodec, MuxerBuilder, VideoCodec};
     let big = (1usize << 30) + (1usize << 28);
     let total: i64 = (1i64 << 32) - 8 - e;
-    let f4 = total - 3 * big as i64 - 32;
-    let lens = [big, big, big, f4 as usize, 32usize];
+    // with trailing audio: three 100-byte Opus packets after the video (their chunk offsets are
+    // the ones that cross 2^32 in the fast-start layout), and no 32-byte last video frame
+    let apkts: Vec<Vec<u8>> = if trailing_audio { (0..3u32).map(|i| frames::opus_packet(i, if audio_mode == 1 { 99 } else { 9 })).collect() } else { vec![] };
+    let alen: i64 = apkts.iter().map(|p| p.len() as i64).sum();
+    let lens: Vec<usize> = if trailing_audio { vec![big, big, big, (total - 3 * big as i64 - alen) as usize] } else { vec![big, big, big, (total - 3 * big as i64 - 32) as usize, 32usize] };
     let mut buf = vec![0u8; big];
     for (i, b) in buf.iter_mut().enumerate() {
         *b = ((i as u64).wrapping_mul(0x9E37_79B9_7F4A_7C15) >> 56) as u8;
@@ -482,14 +498,26 @@ pub fn child_huge(e: i64, fast: bool) -> i32 {
     buf[..hdr.len()].copy_from_slice(&hdr);
     let store = std::rc::Rc::new(std::cell::RefCell::new(Vec::with_capacity((1usize << 32) + (1 << 16))));
     let st2 = store.clone();
+    let apkts2 = apkts.clone();
+    let lens2 = lens.clone();
     let r = guarded(move || {
-        let mut m = match MuxerBuilder::new(BigSink(st2)).video(VideoCodec::Vp9, 1280, 720, 30.0).with_fast_start(fast).build() {
+        let lens = lens2;
+        let mut b = MuxerBuilder::new(BigSink(st2)).video(VideoCodec::Vp9, 1280, 720, 30.0).with_fast_start(fast);
+        if trailing_audio {
+            b = b.audio(AudioCodec::Opus, 48000, 2);
+        }
+        let mut m = match b.build() {
             Ok(m) => m,
             Err(e) => return Err(format!("build: {e}")),
         };
         for (i, &l) in lens.iter().enumerate() {
             if let Err(e) = m.write_video(i as f64 / 30.0, &buf[..l], true) {
                 return Err(format!("write {i}: {e}"));
+            }
+        }
+        for (j, p) in apkts2.iter().enumerate() {
+            if let Err(e) = m.write_audio(1.0 + j as f64 * 0.02, p) {
+                return Err(format!("write_audio {j}: {e}"));
             }
         }
         match m.finish_in_place_with_stats() {
@@ -547,6 +575,32 @@ pub fn child_huge(e: i64, fast: bool) -> i32 {
         }
         pos += l as u64;
     }
+    if trailing_audio {
+        let Some(a) = m.audio().and_then(|t| t.samples().ok()) else {
+            println!("BAD audio-track: missing or unexpandable");
+            return 1;
+        };
+        if a.len() != apkts.len() {
+            println!("BAD audio-sample-count: {} for {} packets", a.len(), apkts.len());
+            return 1;
+        }
+        for (i, (loc, p)) in a.iter().zip(apkts.iter()).enumerate() {
+            if loc.size as usize != p.len() {
+                println!("BAD audio-sample-size: sample {i} stsz {} for {} bytes", loc.size, p.len());
+                return 1;
+            }
+            if loc.offset != pos {
+                println!("BAD audio-chunk-offset: audio sample {i} is stored at {pos}, the table says {}", loc.offset);
+                return 1;
+            }
+            let (x, y) = (loc.offset as usize, loc.offset as usize + p.len());
+            if y > d.len() || d[x..y] != p[..] {
+                println!("BAD audio-sample-bytes: audio sample {i} at {x}..{y}");
+                return 1;
+            }
+            pos += p.len() as u64;
+        }
+    }
     if pos != mdat.1 as u64 {
         println!("BAD mdat-coverage: samples end at {pos}, mdat at {}", mdat.1);
         return 1;
@@ -569,16 +623,22 @@ fn huge_part(ctx: &Ctx, t: &mut Tally) {
     let mut cases = vec![];
     for e in [-64i64, -1, 0, 1, 16, 64, 600, 1200, 5000] {
         for fast in [false, true] {
-            cases.push((e, fast));
+            cases.push((e, fast, 0u8));
+            if [1i64, 64, 600, 1200].contains(&e) {
+                cases.push((e, fast, 1));
+            }
+            if [1i64, 16, 64].contains(&e) {
+                cases.push((e, fast, 2));
+            }
         }
     }
     // two children at a time
     for (pi, pair) in cases.chunks(2).enumerate() {
-        let kids: Vec<_> = pair.iter().map(|&(e, fast)| (e, fast, std::process::Command::new(&exe).arg("--c16-huge").arg(e.to_string()).arg(if fast { "1" } else { "0" }).stdout(std::process::Stdio::piped()).stderr(std::process::Stdio::null()).spawn())).collect();
-        for (k, (e, fast, c)) in kids.into_iter().enumerate() {
+        let kids: Vec<_> = pair.iter().map(|&(e, fast, ta)| (e, fast, ta, std::process::Command::new(&exe).arg("--c16-huge").arg(e.to_string()).arg(if fast { "1" } else { "0" }).arg(ta.to_string()).stdout(std::process::Stdio::piped()).stderr(std::process::Stdio::null()).spawn())).collect();
+        for (k, (e, fast, ta, c)) in kids.into_iter().enumerate() {
             t.evaluations += 1;
             let order = (900_000 + pi as u64, k as u64);
-            let case = || json!({"engine": "E2-c16-huge", "e": e, "fast_start": fast});
+            let case = || json!({"engine": "E2-c16-huge", "e": e, "fast_start": fast, "trailing_audio": ta});
             let out = match c.and_then(|c| c.wait_with_output()) {
                 Ok(o) => o,
                 Err(_) => {
@@ -603,7 +663,7 @@ fn huge_part(ctx: &Ctx, t: &mut Tally) {
                 }
                 (Some(1), _) | (Some(3), _) => {
                     let sig = line.split(':').next().unwrap_or("BAD").replace("BAD ", "").replace(' ', "-");
-                    t.violation(&format!("C16/huge/{sig}"), order, || format!("media data of 2^32 - 8 - ({e}) bytes, fast_start {fast}: {line}"), case);
+                    t.violation(&format!("C16/huge/{sig}"), order, || format!("media data of 2^32 - 8 - ({e}) bytes, fast_start {fast}, trailing audio {ta}: {line}"), case);
                 }
                 _ => t.count("huge_file_children_crashed (machinery, e.g. out of memory)", 1),
             }
@@ -615,11 +675,11 @@ pub fn replay(case: &Value) -> i32 {
     let mut t = Tally::default();
     let c = match case["engine"].as_str() {
         Some("E2-c16-prog") => Case::Prog { name: case["name"].as_str().unwrap_or("?").into(), cfg: serde_json::from_value(case["cfg"].clone()).unwrap(), ops: serde_json::from_value(case["ops"].clone()).unwrap() },
-        Some("E2-c16-paramsets") => Case::ParamSets { codec: serde_json::from_value(case["codec"].clone()).unwrap(), sps: case["sps"].as_u64().unwrap() as usize, pps: case["pps"].as_u64().unwrap() as usize, vps: case["vps"].as_u64().unwrap() as usize },
+        Some("E2-c16-paramsets") => Case::ParamSets { codec: serde_json::from_value(case["codec"].clone()).unwrap(), sps: case["sps"].as_u64().unwrap() as usize, pps: case["pps"].as_u64().unwrap() as usize, vps: case["vps"].as_u64().unwrap() as usize, dup: case["dup"].as_bool().unwrap_or(false) },
         Some("E2-c16-frag") => Case::Frag { name: case["name"].as_str().unwrap_or("?").into(), cfg: serde_json::from_value(case["cfg"].clone()).unwrap(), hist: serde_json::from_value(case["history"].clone()).unwrap() },
         Some("E2-c16-init") => Case::Init { cfg: serde_json::from_value(case["cfg"].clone()).unwrap() },
         Some("E2-c16-huge") => {
-            let rc = child_huge(case["e"].as_i64().unwrap_or(0), case["fast_start"].as_bool().unwrap_or(false));
+            let rc = child_huge(case["e"].as_i64().unwrap_or(0), case["fast_start"].as_bool().unwrap_or(false), case["trailing_audio"].as_u64().unwrap_or(0) as u8);
             println!("{}", if rc == 0 { "replay: property C16 holds for this case" } else { "replay: VIOLATION (see the line above)" });
             return rc.min(1);
         }
